@@ -1,4 +1,5 @@
 import Mastverif.Lemmas.Heap
+import Mastverif.Lemmas.PtrSys
 /-!
 # C02 — captured versions never change (property theorems)
 
@@ -48,6 +49,68 @@ example :
   · exact ⟨_, rfl, Or.inl rfl⟩
 
 end Mast.Heap
+/-!
+## The same statement for the *logic of the code*
+
+`Model/Ptr.lean` transcribes lib.go / pub.go / store.go at the level of node objects; every change
+of the heap goes through the guarded primitives above.  The theorems below say that the
+transcribed operations never fail a guard — so the frame theorem applies to everything they do —
+and spell out the consequence for a system of any number of trees over one heap, store and cache.
+Tie: family `ptr` compares the object graph of every live tree and of the cache with the model's
+after every operation.
+-/
+namespace Mast.Ptr
+open Mast.Heap
+
+/-- **no guard ever fails**: from the empty system, after any history of loads of persisted roots,
+    inserts, deletes, lookups, iterations, persists and clones on any of the trees — with any layer
+    function, any pattern of failing store loads, any fuel — no call is stuck on a guard of the
+    copy-on-write protocol, and the ownership invariant holds at the end. -/
+theorem C02_code_obeys_protocol (E : Env) (fuel : Nat) (ops : List Op) :
+    (Sys.run E fuel {} ops).2 ≠ .stuck ∧ SysInv (Sys.run E fuel {} ops).1 :=
+  let h := Sys.run_ok E fuel ops {} SysInv.init
+  ⟨h.1, h.2.1⟩
+
+/-- **captured versions never change**: a tree that no call of the history operates on (in
+    particular the source of any number of clones, and every clone while the original is worked
+    on) is still the same record, and under its root every level of the contents that could be
+    read before reads the same afterwards. -/
+theorem C02_untargeted_trees_never_change (E : Env) (fuel : Nat) (σ : Sys) (h : SysInv σ) (ops : List Op)
+    (j : Nat) (hj : ∀ op ∈ ops, some j ≠ op.target) (x : PTree) (hx : σ.trees[j]? = some x) :
+    (Sys.run E fuel σ ops).1.trees[j]? = some x ∧
+    ∀ f c, contents σ.ps.heap f x.root = some c → contents (Sys.run E fuel σ ops).1.ps.heap f x.root = some c :=
+  (Sys.run_ok E fuel ops σ h).2.2.1 j hj x hx
+
+/-- **persisted roots never change**: the table of stored contents only grows, so a name that has
+    been written keeps its contents through every later history. -/
+theorem C02_names_keep_their_contents (E : Env) (fuel : Nat) (σ : Sys) (h : SysInv σ) (ops : List Op)
+    (n : Nat) (sn : SNode) (hn : σ.ps.store[n]? = some sn) :
+    (Sys.run E fuel σ ops).1.ps.store[n]? = some sn := by
+  obtain ⟨ext, he⟩ := (Sys.run_ok E fuel ops σ h).2.2.2
+  rw [he, List.getElem?_append_left (List.getElem?_eq_some_iff.mp hn).1]
+  exact hn
+
+/-- one call: what it guarantees (the step of the induction, usable from any invariant state) -/
+theorem C02_one_call (E : Env) (fuel : Nat) (σ : Sys) (op : Op) (h : SysInv σ) :
+    (σ.apply E fuel op).2 ≠ .stuck ∧ SysInv (σ.apply E fuel op).1 ∧
+      ∀ j, some j ≠ op.target → Untouched σ (σ.apply E fuel op).1 j :=
+  let r := Sys.apply_ok E fuel σ op h
+  ⟨r.1, r.2.1, r.2.2.1⟩
+
+/-- non-vacuity: a history with a persist, a clone and diverging edits runs to the end, and the
+    two trees then hold different contents -/
+def exEnv : Env := { layer := fun k => if k % 4 = 0 then 1 else 0, failAt := fun _ => false }
+def exOps : List Op :=
+  [.load 0 0 0 2, .ins 0 4 40, .ins 0 8 80, .ins 0 3 30, .flush 0, .clone 0, .ins 1 5 50, .del 0 8 80, .get 1 8]
+example : (Sys.run exEnv 10 {} exOps).2 = .ok := by decide +kernel
+example : (Sys.run exEnv 10 {} exOps).1.trees.map (fun t => contents (Sys.run exEnv 10 {} exOps).1.ps.heap 5 t.root) =
+    [some [.ent 3 30, .ent 4 40], some [.refn 1, .ent 4 40, .ent 5 50, .ent 8 80]] := by decide +kernel
+
+end Mast.Ptr
+#print axioms Mast.Ptr.C02_code_obeys_protocol
+#print axioms Mast.Ptr.C02_untargeted_trees_never_change
+#print axioms Mast.Ptr.C02_names_keep_their_contents
+#print axioms Mast.Ptr.C02_one_call
 #print axioms Mast.Heap.C02_captured_immutable
 #print axioms Mast.Heap.C02_closed_preserved
 #print axioms Mast.Heap.C02_persisted_root_constant
